@@ -13,13 +13,14 @@ from . import c02
 
 ID = "C03"
 RULE = ("tables of 0..N rows for Interval, Bed6, Bed12, BedGraph, NarrowPeak, ChromosomeSize, GTFEntry, PairsEntry, SAMEntry, "
-        "VCFEntry / VCFWithInfoAsStringEntry, SequenceEntry (FASTA with sequence lengths 0,1,79,80,81,159,160,161,240 and GFA), "
-        "SequenceEntryWithQuality; EVERY way of cutting n rows into successive pieces (all 2^(n-1) compositions, n<=4 quick, "
+        "VCFEntry / VCFWithInfoAsStringEntry / VCFEntryWithGenotypes (VCFBuffer2), SequenceEntry (wrapped FASTA with sequence lengths "
+        "0,1,79,80,81,159,160,161,240, two-line FASTA, GFA), SequenceEntryWithQuality, a delimited table with column-name header holding "
+        "bool and List[bool] columns; columns given as plain lists, as DNA-encoded arrays or as StringEncoding-encoded identifiers; EVERY way of cutting n rows into successive pieces (all 2^(n-1) compositions, n<=4 quick, "
         "n<=6 thorough, each also with an empty first piece and with a random empty piece) x EVERY writer plan: one 'w' writer "
         "(calls / one stream) on a plain or gzip target; 'w' writer for the first k pieces then one appending writer per piece or "
         "one appending writer fed by a stream, for every k, plain or gzip; only appending writers on a new file, a new gzip file, "
         "or an existing empty file; header-bearing formats (VCF, a delimited buffer with a column-name header) with ZERO rows in total "
-        "(one empty table, several empty pieces, a stream of empty chunks); lazily read tables re-written from row-indexed pieces; observables: the exact bytes on disk and the table read back. Non-trivial = >= 2 writes, or a "
+        "(one empty table, several empty pieces, a stream of empty chunks); lazily read tables re-written from row-indexed pieces; observables: the exact bytes on disk, the table read back and the number of records reported by bnp.count_entries. Non-trivial = >= 2 writes, or a "
         "sequence length within 1 of a multiple of the line width, or append/gzip/stream mode")
 EXHAUSTIVE = {"quick": False, "thorough": False}
 MODEL_OPS = {"write"}
@@ -44,7 +45,10 @@ MANIFEST = {
             "column types / every wrap width / every FASTQ table); float_partial (what is proved for float cells: the text travels verbatim; value "
             "precision is corresponded); fasta_wrap / lineLens_sum / fasta_unwrap / fasta_layout (flat-fill writer = canonical "
             "wrapped layout for every width and every list of records, empty sequences included), fastq_layout; refutations of "
-            "the repaired rules (sessionOld, headerLenOld). FASTA line structure for lengths 0..242, the default VCF header and FASTQ "
+            "the repaired rules (sessionOld, writeStreamOld, headerLenOld); formatInt_injective / natDigits_canonical (canonical decimal text: "
+            "digits only, no leading zero, one text per integer), dump_injective (the bytes determine the table), "
+            "writes_chunking_independent (any two cuts of the same rows give the same file), sessions_truncate (a 'w' writer forgets "
+            "everything before it), wrap_lengths (every wrapped line but the last has exactly W characters). FASTA line structure for lengths 0..242, the default VCF header and FASTQ "
             "constants are re-measured on the running code into Gen/C03.lean every run and checked by decide. "
             "Correspondence: real writer+reader vs Lean model vs Lean spec vs pure-Python serialiser on every composition of "
             "<= 4 (quick) / <= 6 (thorough) rows x 11 writer plans x every position of the first append.",
@@ -57,7 +61,9 @@ MANIFEST = {
             "after the other must give the selected source lines once each; lazily (and eagerly) read tables of every delimited "
             "format and FASTQ with EACH single field replaced, written, compared with the canonical serialisation; one eager table "
             "object written repeatedly (whole / slices / slices of slices, separate targets): every output canonical and the table "
-            "object unchanged. Seven defects found and fixed (known_findings.json).",
+            "object unchanged; bnp.count_entries on every written file = the number of rows. Record markers / line offsets in Gen/C03.lean "
+            "are observed on from_data / get_data, no private attribute of the package is read. Eight defects found and fixed "
+            "(known_findings.json).",
     "technique": "Lean 4 proof over an executable model (induction over rows / write list / writer sessions) + constants regenerated from source + differential correspondence with the implementation",
     "design": "§6 C03",
 }
